@@ -85,12 +85,19 @@ _Bool L_IS_OBS_ME(L_IS_OBS_ME_a0 l) { return OBS[lk_idx(l)]; }
 #endif
 static uint8_t G_thread[8]; static unsigned G_nret;
 THIS_THREAD_ret THIS_THREAD(void) { return (THIS_THREAD_ret)G_thread; }
+#ifdef VERIF_CFG_STATS
+#define RETIRE_SIZE , RETIRE_a2 size
+#define RETIRE_CBT RETIRE_a3
+#else
+#define RETIRE_SIZE
+#define RETIRE_CBT RETIRE_a2
+#endif
 #ifdef VERIF_CFG_DEBUG
-#define RETIRE_EXTRA , RETIRE_a3 dbg_callback
+#define RETIRE_EXTRA , RETIRE_CBT dbg_callback
 #else
 #define RETIRE_EXTRA
 #endif
-void RETIRE(RETIRE_a0 self, RETIRE_a1 p, RETIRE_a2 size RETIRE_EXTRA) { G_nret++; }
+void RETIRE(RETIRE_a0 self, RETIRE_a1 p RETIRE_SIZE RETIRE_EXTRA) { G_nret++; }
 struct rcs { void *lock; uint64_t ver; };
 static uint8_t *G_dbp, *G_obj, *G_val, *G_cached0; static uint64_t *G_slot, *G_cip; static uint64_t G_childw, G_old; static _Bool G_head_seen; static unsigned G_aocs_calls; static int G_outcome = -1;
 uint64_t IN_K, IN_vlen; unsigned IN_depth;
